@@ -115,3 +115,26 @@ func TestDelayHist(t *testing.T) {
 		w.runHist(s, func(l HistLine) { tw.Emit(l) })
 	}
 }
+
+// TestIdentHist executes the C15 history schedules of $VERIF_SCHED (ndjson: id, acts) as real transactions
+// on one chain and writes one line per step to $VERIF_TRACE.
+func TestIdentHist(t *testing.T) {
+	schedPath := lib.EnvStr("VERIF_SCHED", "")
+	tracePath := lib.EnvStr("VERIF_TRACE", "")
+	if schedPath == "" || tracePath == "" {
+		t.Skip("VERIF_SCHED / VERIF_TRACE not set")
+	}
+	scheds, err := lib.ReadNDJSON[IdentSchedule](schedPath)
+	if err != nil {
+		t.Fatal(err)
+	}
+	tw, err := lib.NewTraceWriter(tracePath)
+	if err != nil {
+		t.Fatal(err)
+	}
+	defer tw.Close()
+	w := newIdentWorld(t)
+	for _, s := range scheds {
+		w.run(s, func(l IdentLine) { tw.Emit(l) })
+	}
+}
